@@ -88,3 +88,7 @@ def run(ctx, R):
     R.count('R7.3', n3, 3)
     r74(ctx, R)
     c10.r101(ctx, R, 'R7.5')
+    from psa import sqlshape
+    n = sqlshape.shape_rule(ctx, R, 'R7.6', [
+        'placement.objects.allocation:_check_capacity_exceeded'])
+    R.count('R7.6', n, 1)
